@@ -10,7 +10,7 @@ use crate::Params;
 use graaf::*;
 use std::collections::BTreeSet;
 
-pub const TYPES: [&str; 6] = ["AdjacencyList", "AdjacencyMap", "AdjacencyMatrix", "EdgeList", "AdjacencyListWeighted<usize>", "AdjacencyMap(non-contiguous)"];
+pub const TYPES: [&str; 7] = ["AdjacencyList", "AdjacencyMap", "AdjacencyMatrix", "EdgeList", "AdjacencyListWeighted<usize>", "AdjacencyMap(non-contiguous)", "user-defined view (lazy iterators)"];
 
 /// Classes of mutual reachability. For big inputs the closure per vertex is
 /// too slow, so use: v ~ u iff v in reach(u) and u in reach^-1... computed as
@@ -37,7 +37,30 @@ pub fn sccs_fast(m: &Model) -> BTreeSet<BTreeSet<usize>> {
     out
 }
 
-pub fn check<D: OutNeighbors + Vertices + Clone>(d: &D, m: &Model, o: &mut CaseOut) {
+/// A user-defined representation: the property quantifies over every type
+/// implementing OutNeighbors + Vertices. Its iterators are lazy adaptors with
+/// inexact size hints (filter / chain).
+#[derive(Clone, Debug)]
+pub struct View {
+    m: Model,
+    split: usize,
+}
+
+impl Vertices for View {
+    fn vertices(&self) -> impl Iterator<Item = usize> {
+        let s = self.split;
+        self.m.verts.iter().copied().filter(move |&v| v < s).chain(self.m.verts.iter().copied().filter(move |&v| v >= s))
+    }
+}
+
+impl OutNeighbors for View {
+    fn out_neighbors(&self, u: usize) -> impl Iterator<Item = usize> {
+        assert!(self.m.verts.contains(&u), "u = {u} isn't in the digraph");
+        self.m.arcs.keys().filter(move |a| a.0 == u).map(|a| a.1)
+    }
+}
+
+pub fn check<D: OutNeighbors + Vertices + Clone>(d: &D, other: &D, m: &Model, o: &mut CaseOut) {
     let mut t = Tarjan::new(d);
     let comps: Vec<BTreeSet<usize>> = t.components().clone();
     let total: usize = comps.iter().map(BTreeSet::len).sum();
@@ -50,7 +73,8 @@ pub fn check<D: OutNeighbors + Vertices + Clone>(d: &D, m: &Model, o: &mut CaseO
     let again: Vec<BTreeSet<usize>> = t.components().clone();
     o.check(again == comps, "components-differ-on-second-call", || crate::ctx::clip(&format!("first {comps:?} second {again:?}")));
     {
-        let mut x = Tarjan::new(d);
+        // the destination was created for ANOTHER digraph and has been used
+        let mut x = Tarjan::new(other);
         let _ = x.components().len();
         x.clone_from(&Tarjan::new(d));
         let via: Vec<BTreeSet<usize>> = x.components().clone();
@@ -90,13 +114,22 @@ pub fn case(idx: u64, seed: u64, p: &Params, o: &mut CaseOut) {
         }
         o.bump("huge_order");
     }
-    let ty = r.below(6);
+    let ty = r.below(7);
+    let on = if r.chance(0.5) { m.n().min(300) } else { r.range(1, 12) };
+    let om = gen::family(&mut r, 5, on);
     match ty {
-        0 => check(&AdjacencyList::build(&m), &m, o),
-        1 => check(&AdjacencyMap::build(&m), &m, o),
-        2 => check(&AdjacencyMatrix::build(&m), &m, o),
-        3 => check(&EdgeList::build(&m), &m, o),
-        4 => check(&build_w_usize(&m), &m, o),
+        0 => check(&AdjacencyList::build(&m), &AdjacencyList::build(&om), &m, o),
+        1 => check(&AdjacencyMap::build(&m), &AdjacencyMap::build(&om), &m, o),
+        2 => check(&AdjacencyMatrix::build(&m), &AdjacencyMatrix::build(&om), &m, o),
+        3 => check(&EdgeList::build(&m), &EdgeList::build(&om), &m, o),
+        4 => check(&build_w_usize(&m), &build_w_usize(&om), &m, o),
+        6 => {
+            let split = r.below(m.n() + 1);
+            if r.chance(0.5) {
+                m = gen::sparsify(&mut r, &m);
+            }
+            check(&View { m: m.clone(), split }, &View { m: om.clone(), split: 0 }, &m, o);
+        }
         _ => {
             m = gen::sparsify(&mut r, &m);
             if r.chance(0.15) {
@@ -110,7 +143,7 @@ pub fn case(idx: u64, seed: u64, p: &Params, o: &mut CaseOut) {
                 };
                 o.bump("vertex_id_usize::MAX");
             }
-            check(&build_map_any(&m), &m, o);
+            check(&build_map_any(&m), &build_map_any(&om), &m, o);
         }
     }
     let sccs = sccs_fast(&m);
